@@ -13,6 +13,7 @@ import (
 	"strings"
 	"time"
 	"unicode/utf8"
+	"unsafe"
 
 	"github.com/welllog/golib/randz"
 
@@ -36,7 +37,7 @@ func init() {
 		NonTrivial: nonTrivial,
 		Rule: "cases of three kinds: id (Base32 / ParseBase32 / FormatInt numerals / NewIdGenerator fields / bit composition), " +
 			"str (StrGenerator over a scripted rand.Source: character sets of 1..70 runes incl. multi-byte and invalid bytes, n in -1..40), " +
-			"count (CountGenerator with 1..5 rules added in random order, Generate/Min/Max at diffs around every period boundary); " +
+			"count (CountGenerator with 1..5 rules added in random order, Generate/Min/Max at diffs around every period boundary), countraw (2..16 rules installed through reflection in a given order: sorted by period with equal periods in every relative order, 10% unsorted for the model tie only); " +
 			"non-trivial = id case with a ParseBase32 of an input containing a byte outside the alphabet or of a 2+ character numeral, " +
 			"str case with at least one rejected index or a word refill, count case crossing at least one period boundary; distinct by hash of the lines",
 		Classify: classify,
@@ -49,7 +50,7 @@ func init() {
 		Assumptions: []string{
 			"Go int treated as unbounded in CountGenerator (no sum near 2^63); rule parameters up to 2^40 are generated, the theorems cover every parameter that fits a Go int",
 			"the clock (time.Since) and the random sources are inputs of the model; the real clock is only bracketed (before <= ms <= after)",
-			"sort.Slice on the <= 12 rules used here is an insertion sort (stable); equal periods keep insertion order",
+			"count cases: sort.Slice on the <= 5 rules added there is an insertion sort (stable), the model keeps insertion order among equal periods; the property itself is proved and exercised for every order among equal periods (c20_count_any_order, countraw cases)",
 			"strconv.FormatInt, []rune(string), strings.Builder.WriteRune as in the Go standard library (compared on every run)",
 		},
 	})
@@ -120,7 +121,8 @@ func impl(c core.Case) []string {
 			return fmt.Sprintf("bits=%d mask=%d max=%d n=%d", field(v, "charIdxBits"), field(v, "charIdxMask"),
 				field(v, "charIdxMax"), v.FieldByName("charSet").Len())
 		}, func(t []string) string { return strStep(&g, src, t) })
-	case "count":
+	case "count", "countraw":
+		raw := hdr[2] == "countraw"
 		var rules [][4]int
 		for _, r := range hdr[3:] {
 			p := strings.Split(r, ",")
@@ -143,6 +145,23 @@ func impl(c core.Case) []string {
 				cg.AddRule(r[0], r[1], r[2], r[3])
 			}
 			rs := reflect.ValueOf(cg).Elem().FieldByName("rules")
+			if raw {
+				// install exactly the given order (any order sort.Slice may leave among equal
+				// periods, or an unsorted slice) over the slice AddRule built
+				if rs.Len() != len(rules) {
+					return "raw-unsupported"
+				}
+				for i, q := range rules {
+					e := rs.Index(i)
+					for k, name := range []string{"period", "periodEndMaxIncr", "interval", "intervalMaxIncr"} {
+						f := e.FieldByName(name)
+						if !f.IsValid() || f.Kind() != reflect.Int {
+							return "raw-unsupported"
+						}
+						reflect.NewAt(f.Type(), unsafe.Pointer(f.UnsafeAddr())).Elem().SetInt(int64(q[k]))
+					}
+				}
+			}
 			var parts []string
 			for i := 0; i < rs.Len(); i++ {
 				e := rs.Index(i)
@@ -303,6 +322,18 @@ func check(c core.Case, out []string) *core.Failure {
 		return checkStr(c, out, hdr)
 	case "count":
 		return checkCount(c, out, hdr)
+	case "countraw":
+		// the property speaks about what AddRule builds: a slice sorted by period (rules of
+		// equal period in ANY relative order); unsorted slices are tied to the model only
+		last := 0
+		for _, r := range hdr[3:] {
+			p, err := strconv.Atoi(strings.Split(r, ",")[0])
+			if err != nil || p < last {
+				return nil
+			}
+			last = p
+		}
+		return checkCount(c, out, hdr)
 	}
 	return nil
 }
@@ -349,6 +380,14 @@ func checkID(c core.Case, out []string) *core.Failure {
 			}
 			if want.BitLen() <= 63 && o != want.String()+" ok" {
 				return &core.Failure{Key: "base32-parse-wrong", Desc: fmt.Sprintf("ParseBase32(%q) answered %q, the numeral's value is %s", b, o, want)}
+			}
+			if want.BitLen() > 63 {
+				// outside the property (not the numeral of any ID): the int64 accumulator wraps; the
+				// answer must still be the value modulo 2^64 read as int64
+				w := new(big.Int).And(want, new(big.Int).SetUint64(^uint64(0))).Uint64()
+				if o != strconv.FormatInt(int64(w), 10)+" ok" {
+					return &core.Failure{Key: "base32-parse-overflow", Desc: fmt.Sprintf("ParseBase32(%q) answered %q, the numeral's value %s wraps to %d in int64", b, o, want, int64(w))}
+				}
 			}
 		case "fmt":
 			v, _ := strconv.ParseInt(t[1], 10, 64)
@@ -639,7 +678,10 @@ func classify(c core.Case, out []string) []string {
 				}
 			}
 		}
-	case "count":
+	case "count", "countraw":
+		if hdr[2] == "countraw" {
+			ls = append(ls, "count-raw-order")
+		}
 		var periods []int
 		for _, r := range hdr[3:] {
 			p, _ := strconv.Atoi(strings.Split(r, ",")[0])
@@ -647,6 +689,17 @@ func classify(c core.Case, out []string) []string {
 		}
 		if !countPositive(hdr) {
 			ls = append(ls, "count-nonpositive-params")
+		}
+		seen := map[int]bool{}
+		for _, p := range periods {
+			if seen[p] {
+				ls = append(ls, "count-equal-periods")
+				break
+			}
+			seen[p] = true
+		}
+		if len(periods) > 12 {
+			ls = append(ls, "count-more-than-12-rules")
 		}
 		for _, r := range hdr[3:] {
 			p := strings.Split(r, ",")
